@@ -92,6 +92,83 @@ func checkConfigGetters(c *Ctx, rule string, getters ...string) {
 				}
 			}
 		}
+		if ok {
+			if w2 := configDefaultShape(c, rule, role, fn, g, want); w2 != "" {
+				ok, why = false, w2
+			}
+		}
 		c.Check(ok, rule, role, fn, "reads-own-field:"+g, "the default configuration provider's "+g+" reads exactly the field "+want+" (and returns the documented default when it is unset)", why, nil)
 	}
+}
+
+// documented numeric defaults (config.go / config_default.go doc comments), in the unit of the field
+var configDefaultConst = map[string]string{
+	"GetAuthorizeCodeLifespan":          "900000000000",     // 15 minutes
+	"GetIDTokenLifespan":                "3600000000000",    // one hour
+	"GetAccessTokenLifespan":            "3600000000000",    // one hour
+	"GetRefreshTokenLifespan":           "2592000000000000", // 30 days
+	"GetDeviceAndUserCodeLifespan":      "600000000000",     // 10 minutes
+	"GetJWTMaxDuration":                 "86400000000000",   // 24 hours
+	"GetPushedAuthorizeContextLifespan": "300000000000",     // 5 minutes
+	"GetBCryptCost":                     "12",
+	"GetTokenEntropy":                   "32",
+	"GetMinParameterEntropy":            "8",
+}
+
+// getters whose documented "unset" condition is "zero or negative"
+var configUnsetNonPositive = map[string]bool{"GetPushedAuthorizeContextLifespan": true}
+
+// configDefaultShape: a getter returns its field exactly when the field is set and a
+// receiver-independent default exactly when it is unset (zero value; <= 0 where documented).
+func configDefaultShape(c *Ctx, rule, role string, fn *ssa.Function, g, want string) string {
+	ex := c.Explore(fn, ExploreConfig{}, "config")
+	if ex.Truncated != "" || len(ex.Paths) == 0 {
+		return ""
+	}
+	recv := paramNamed(fn, 0)
+	fld := field(recv, want)
+	nRet := 0
+	for _, p := range ex.Paths {
+		if p.Kind == "return" {
+			nRet++
+		}
+	}
+	for _, p := range ex.Paths {
+		if p.Kind != "return" || len(p.Rets) != 1 {
+			continue
+		}
+		r := p.Rets[0]
+		unset := p.Holds(atomEQ(fld, tInt(0)), true) || p.IsNil(fld) || p.EmptyStr(fld) || p.Holds(atomEQ(call("len", fld), tInt(0)), true)
+		set := p.Holds(atomEQ(fld, tInt(0)), false) || p.NonNil(fld) || p.NonEmptyStr(fld) || p.Holds(atomLT(tInt(0), fld), true) || p.Holds(atomLT(tInt(0), call("len", fld)), true)
+		if configUnsetNonPositive[g] {
+			unset = unset || p.Holds(atomLT(tInt(0), fld), false) || p.Holds(atomLT(fld, tInt(1)), true)
+		}
+		set = set || p.Holds(atomLT(fld, tInt(1)), false)
+		if r.Key() == tTrue.Key() || r.Key() == tFalse.Key() {
+			// boolean switch (split into its two exits): the answer is the field's value
+			if !p.Holds(atomB(fld), r.Key() == tTrue.Key()) {
+				return fmt.Sprintf("%s answers %s on a path where the field %s is not known to have that value", g, r.Name, want)
+			}
+			continue
+		}
+		isField := r.Mentions(func(t *Term) bool { return t.Key() == fld.Key() })
+		if isField {
+			if nRet > 1 && !set {
+				return fmt.Sprintf("%s returns the field %s on a path where it is not known to be set", g, want)
+			}
+			continue
+		}
+		if !unset {
+			return fmt.Sprintf("%s returns %s instead of the field on a path where %s is not known to be unset", g, clip(r.Pretty(), 60), want)
+		}
+		if r.Mentions(func(t *Term) bool { return t.Key() == recv.Key() }) && !r.IsCall("alloc") && r.Op != "alloc" {
+			if _, isB := map[string]bool{"GetSecretsHasher": true}[g]; !isB {
+				return fmt.Sprintf("%s derives its default %s from the receiver (another setting) instead of the documented constant", g, clip(r.Pretty(), 60))
+			}
+		}
+		if k, has := configDefaultConst[g]; has && r.Op == "const" && r.Name != k {
+			return fmt.Sprintf("%s defaults to %s; the documented default is %s", g, r.Name, k)
+		}
+	}
+	return ""
 }
